@@ -146,6 +146,23 @@ def impl(case):
         aut, widths, progs = case["data"]
         make = lambda: build(aut)
         dfta = make()
+        if case.get("inplace") is not None and aut[0]:
+            # one automaton OBJECT with a history: it is first converted while one rule points elsewhere,
+            # then that rule is re-targeted in place (dfta.rules[key] = state, the idiom of the sharpening
+            # code) and every conversion below is done on the same object
+            i, other = case["inplace"]
+            l, args, d = aut[0][i % len(aut[0])]
+            key = (O.sym(l), tuple(dec_state(a) for a in args))
+            shared = build(aut)
+            shared.rules[key] = dec_state(other)
+            for conv in (lambda: UCFG.from_DFTA(shared, clean=False), lambda: UCFG.from_DFTA_with_ngrams(shared, 2)):
+                try:
+                    conv()
+                except Exception:
+                    pass
+            shared.rules[key] = dec_state(d)
+            make = lambda: shared
+            dfta = shared
     ps = [O.prog(w) for w in progs]
     fin = dfta.finals
     out["accept"] = [1 if (lambda q: q is not None and q in fin)(run(dfta, p)) else 0 for p in ps]
